@@ -4,6 +4,7 @@ import PyXABModel.Drv.Sweep
 import PyXABModel.Drv.Meta
 import PyXABModel.Drv.Zooming
 import PyXABModel.Drv.VROOM
+import PyXABModel.Drv.StroquOOL
 import PyXABModel.Generated.ObjectivesFloat
 namespace PyXAB.Drv
 
@@ -20,6 +21,7 @@ inductive DState where
   | gpo (d : GpoDD)
   | zoom (d : ZoomD)
   | vr (d : VrD)
+  | sk (d : SkD)
 
 def runRd {β} (r : Rd β) (toks : List String) : Except String β :=
   match r.run toks with
@@ -97,6 +99,11 @@ def algoStep (st : DState) (cmd : String) (args : List String) : DState × Strin
     | .ok (.ok d, note) => (.vr d, note)
     | .ok (.error e, _) => (.none, s!"ERR {errName e}")
     | .error e => (.none, s!"bad-op {e}")
+  | "StroquOOL.init", _ =>
+    match skInit args with
+    | .ok (d, note) => (.sk d, note)
+    | .error e => (.none, s!"bad-op {e}")
+  | _, .sk d => let (d', o) := skStep d cmd args; (.sk d', o)
   | _, .vr d => let (d', o) := vrStep d cmd args; (.vr d', o)
   | _, .zoom d => let (d', o) := zoomStep d cmd args; (.zoom d', o)
   | _, .poo d => let (d', o) := pooStep d cmd args; (.poo d', o)
